@@ -57,6 +57,10 @@ func (g *Gen) Predef(cids []string) map[string]map[uint16]string {
 		return m
 	}
 	names := []string{"pre/1", "pre/2", "pre/3", "pre/x/y"}
+	if g.Bool(0.25) {
+		// a predefined name may be a filter (fine for SUBSCRIBE) — it is no topic name for a PUBLISH
+		names[g.Intn(4)] = []string{"pre/+/w", "pre/#", "+"}[g.Intn(3)]
+	}
 	// within one map every name appears at most once: Go map iteration order in GetTopicID (N7)
 	// would otherwise make the id the gateway picks for a name differ between executions.
 	draw := func(maxID int64) map[uint16]string {
